@@ -480,4 +480,67 @@ Proof.
        pose proof step_pos; lia.
 Qed.
 
+(* ---- one receive from any state between two receives (used by Chain and Server proofs) ---- *)
+
+Record RInv (polls fuel : nat) (s : st) (fsb : list (list byte)) (tr : list ev)
+            (fsr : list (list byte)) : Prop := {
+  ri_buf : buffered s fsb;
+  ri_cap : cap_ok s;
+  ri_ok : Forall ok_ev tr;
+  ri_pay : payload tr = wire fsr;
+  ri_frames : Forall frame_ok (fsb ++ fsr);
+  ri_lim : lim_ok s tr;
+  ri_polls : length tr < polls;
+  ri_fuel : length (payload tr) + length tr < fuel
+}.
+
+Lemma receive_step : forall polls fuel s fsb tr fsr tl' f rest,
+  RInv polls fuel s fsb tr fsr -> fsb ++ fsr = f :: rest ->
+  exists s' tr' fsb' fsr',
+    receive polls fuel s (tr ++ Eof :: tl') = Some (Msg (decode f), s', tr' ++ Eof :: tl')
+    /\ RInv polls fuel s' fsb' tr' fsr' /\ fsb' ++ fsr' = rest.
+Proof.
+  intros polls fuel s fsb tr fsr tl' f rest [Hb Hc Hok Hpay Hfr Hlim Hp Hf] Hsplit.
+  destruct polls as [|polls]; [lia|].
+  destruct fsb as [|f0 fsb].
+  - destruct Hb as [Hm Hd]. cbn [app] in *. subst fsr.
+    assert (Hw : data s ++ payload tr = wire (f :: rest)) by (now rewrite Hd, Hpay).
+    destruct (receive_clean (S polls) fuel s tr tl' f rest Hm Hc Hok (or_introl Hd) Hfr Hw Hlim Hp Hf)
+      as (s' & tr' & fsb' & fsr' & Hrec & -> & Hb' & Hc' & Hok' & Hpay' & Hlim' & Hlen' & Hpl').
+    exists s', tr', fsb', fsr'. split; [exact Hrec|]. split; [|reflexivity].
+    constructor; auto; try lia. inversion Hfr; assumption.
+  - cbn [app] in Hsplit. inversion Hsplit; subst f0 rest.
+    destruct Hb as [Hm Hsk].
+    assert (Hok1 : Forall frame_ok (f :: fsb)) by (apply Forall_app in Hfr; tauto).
+    destruct (deliver_buffered s f fsb Hok1 Hsk) as (Hb' & Hcap & Hlen).
+    exists (snd (deliver s)), tr, fsb, fsr.
+    split; [apply (receive_buffered polls fuel s _ f fsb Hm Hok1 Hsk)|]. split; [|reflexivity].
+    constructor; auto.
+    + unfold cap_ok in *. rewrite Hcap. lia.
+    + cbn [app] in Hfr. inversion Hfr; assumption.
+    + unfold lim_ok in *. lia.
+Qed.
+
+Lemma RInv_fresh : forall fs tr polls fuel,
+  Forall frame_ok fs -> Forall ok_ev tr -> payload tr = wire fs ->
+  (N.of_nat (length (wire fs)) < limit)%N ->
+  length tr < polls -> length (wire fs) + length tr < fuel ->
+  RInv polls fuel (init step) [] tr fs.
+Proof.
+  intros fs tr polls fuel Hfr Hok Hpay Hlim Hp Hf.
+  constructor; auto.
+  all: try (split; reflexivity).
+  all: unfold cap_ok, lim_ok, init; cbn [data cap length Nat.add app]; rewrite ?Hpay; auto;
+       pose proof step_pos; lia.
+Qed.
+
+(* the stream of remaining frames as seen by later receives *)
+Lemma RInv_run : forall n polls fuel s fsb tr fsr tl',
+  RInv polls fuel s fsb tr fsr ->
+  map fst (run n polls fuel s (tr ++ Eof :: tl')) = spec n (fsb ++ fsr).
+Proof.
+  intros n polls fuel s fsb tr fsr tl' [Hb Hc Hok Hpay Hfr Hlim Hp Hf].
+  now apply run_frames.
+Qed.
+
 End Proofs.
